@@ -126,10 +126,10 @@ def gen_pairs(rng, n):
     for (label, a, ha, b, hb) in CORPUS_PAIRS:
         out.append((label, {"a": (a, ha, None), "b": (b, hb, None)}))
     # local-scope corpus: every pair of sites, bare and wrapped
-    wrappers = ["%s", "[]%s", "struct{ F %s }", "func(%s)", "p.G[%s]", "map[%s]int", "*%s", "p.H[%s, %s]"]
+    wrappers = ["%s", "[]%s", "struct{ F %s }", "func(%s)", "p.G[%s]", "map[%s]int", "*%s", "p.H[%s, %s]", "p.G[func(%s)]"]
     for sa in tg.LOCAL_SITES:
         for sb in tg.LOCAL_SITES:
-            w = wrappers[(sa * 7 + sb) % len(wrappers)]
+            w = wrappers[(sa * 6 + sb) % len(wrappers)]
             src = w.replace("%s", "L")
             out.append(("local-scope" if sa != sb else "local-same", {"a": (src, "r", sa), "b": (src, "r", sb)}))
     g = tg.Gen(rng, home="r")
@@ -260,7 +260,7 @@ def run(ctx, args):
     rng = ctx.rng
     st = lean_check(ctx, ["LlgoVerif.Props.C07"], ["LlgoVerif/Props/C07.lean"],
                     extra_files=["LlgoVerif/Model/GoType.lean", "LlgoVerif/Model/Iface.lean", "LlgoVerif/Spec/TypeIdent.lean",
-                                 "LlgoVerif/Lemmas/GoType.lean", "LlgoVerif/Lemmas/Iface.lean"],
+                                 "LlgoVerif/Lemmas/GoTypeStr.lean", "LlgoVerif/Lemmas/GoType.lean", "LlgoVerif/Lemmas/GoTypeInj.lean", "LlgoVerif/Lemmas/Iface.lean"],
                     leanchecker=(ctx.tier == "thorough"))
     modeld = build_driver(ctx, "modeld_c07")
     harness = build_go_harness(ctx, "c07")
@@ -283,6 +283,7 @@ def run(ctx, args):
     impls = gen_impls(rng, n_impl)
     BATCH = 5000
     pair_lines, impl_lines = [], []
+    pair_cmp = {}
     for b0 in range(0, len(pairs), BATCH):
         chunk = pairs[b0:b0 + BATCH]
         job = assemble([p for _, p in chunk], impls if b0 == 0 else [])
@@ -295,17 +296,28 @@ def run(ctx, args):
         for line in p.stdout.split("\n"):
             if line.startswith("pair "):
                 f = line.split(" ", 6)
-                pair_lines.append((b0 + int(f[1]), f[2] == "1", f[3], f[4], f[5], f[6]))
+                why, cmpf = f[5].rsplit(",", 1)
+                pair_lines.append((b0 + int(f[1]), f[2] == "1", f[3], f[4], why, f[6]))
+                pair_cmp[b0 + int(f[1])] = cmpf
             elif line.startswith("impl "):
                 impl_lines.append(line)
     ctx.log("harness: %d pairs, %d implements cases named by the real ssa/abi" % (len(pair_lines), len(impl_lines)))
     if len(pair_lines) != len(pairs):
         raise RuntimeError("harness lost pairs: %d of %d" % (len(pair_lines), len(pairs)))
 
-    mout, rc, err = run_lines([modeld], ["pair " + pl[5] for pl in pair_lines])
+    # which variant of structHash does the working tree implement?  (pinned tree: neither tags nor embedded names are
+    # written; fixes/C07-1.diff adds tags, fixes/C07-2.diff embedded names) - read off two corpus pairs, the model follows
+    bylabel = {pairs[pl[0]][0]: pl for pl in pair_lines if pairs[pl[0]][0].startswith("corpus:")}
+    v_tags = bylabel["corpus:tag"][2] != bylabel["corpus:tag"][3]
+    v_emb = bylabel["corpus:embedded-alias"][2] != bylabel["corpus:embedded-alias"][3]
+    variant = ("1" if v_tags else "0") + ("1" if v_emb else "0")
+    ctx.log("structHash variant of the working tree: tags %s, embedded names %s" % ("written" if v_tags else "NOT written", "written" if v_emb else "NOT written"))
+    ctx.coverage["structHash_variant"] = {"tags_written": v_tags, "embedded_names_written": v_emb}
+    mout, rc, err = run_lines([modeld], ["pair " + variant + " " + pl[5] for pl in pair_lines])
     if len(mout) != len(pair_lines):
         raise RuntimeError("model driver died: %d/%d %s" % (len(mout), len(pair_lines), err[-2000:]))
     unsupported = 0
+    unknown_seen = {}
     for (idx, ident, na, nb, why, terms), ml in zip(pair_lines, mout):
         label, pr = pairs[idx]
         stats[label.split(":")[0] if label.startswith("corpus") else label] = stats.get(label.split(":")[0] if label.startswith("corpus") else label, 0) + 1
@@ -324,13 +336,24 @@ def run(ctx, args):
                 what = CLASS_WHAT.get(key)
                 rep = {"a": pr["a"], "b": pr["b"], "types.Identical": ident, "TypeName_a": unhexs(na).decode(), "TypeName_b": unhexs(nb).decode(), "differs_in": why, "generator_label": label}
                 if what is None or ctx.match_known(key) is None:
+                    # a class no listed finding explains: the key carries the input (at most 3 inputs per class are written out)
+                    unknown_seen[key] = unknown_seen.get(key, 0) + 1
+                    if unknown_seen[key] > 3:
+                        continue
                     key = key if what is not None else "%s:%s|%s" % (key, pr["a"][0][:60], pr["b"][0][:60])
                     what = what or "TypeName(t1)==TypeName(t2) is %s but types.Identical is %s (attribute %s)" % (same, ident, attr)
                 ctx.report(key, what, rep)
         # (b) correspondence model vs real, (c) Lean spec vs go/types
-        if len(mf) != 3:
+        if len(mf) != 4:
             corr_bad.append((idx, "model answered " + ml, pr))
             continue
+        if mf[3] == "1":
+            # the pair satisfies the decidable hypotheses of typeName_injective_partial: the theorem then
+            # PREDICTS name equality <-> identity; the real code must agree (else proof or tie is unsound)
+            stats["inside-proved-fragment"] = stats.get("inside-proved-fragment", 0) + 1
+            stats["inside-proved-fragment:" + ("identical" if ident else "different")] = stats.get("inside-proved-fragment:" + ("identical" if ident else "different"), 0) + 1
+            if same != ident:
+                corr_bad.append((idx, "pair inside the proved fragment contradicts typeName_injective_partial", pr))
         if mf[0] == "unsupported" or mf[1] == "unsupported":
             unsupported += 1
         else:
@@ -402,11 +425,16 @@ def run(ctx, args):
                 vs = sorted(v, key=lambda e: unhexs(e[0]))
                 same_order_ok = scan_py(ts, vs) == spec
                 key = "implements:table-order-mismatch" if (spec and same_order_ok) else "implements:%s|%s|%s" % (op, itf, home)
-                ctx.report(key, "runtime Implements(%s, %s) = %s but the type %s the interface" % (itf, op, real_impl, "implements" if spec else "does not implement"), rep)
+                if key != "implements:table-order-mismatch":
+                    unknown_seen["implements"] = unknown_seen.get("implements", 0) + 1
+                if key == "implements:table-order-mismatch" or unknown_seen["implements"] <= 3:
+                    ctx.report(key, "runtime Implements(%s, %s) = %s but the type %s the interface" % (itf, op, real_impl, "implements" if spec else "does not implement"), rep)
             if rf[1] != "-" and (rf[1] == "1") != spec and not op_is_iface:
                 spec_fail += 1
                 key = "newitab:operand-table-not-sorted" if (spec and not bytes_sorted_strict([(unhexs(e[0]),) for e in v])) else "newitab:%s|%s|%s" % (op, itf, home)
-                ctx.report(key, "runtime NewItab(%s, %s) %s but the type %s the interface" % (itf, op, "succeeds" if rf[1] == "1" else "fails", "implements" if spec else "does not implement"), rep)
+                unknown_seen["newitab"] = unknown_seen.get("newitab", 0) + 1
+                if unknown_seen["newitab"] <= 3:
+                    ctx.report(key, "runtime NewItab(%s, %s) %s but the type %s the interface" % (itf, op, "succeeds" if rf[1] == "1" else "fails", "implements" if spec else "does not implement"), rep)
         else:
             (l, t, v, mode) = tabs[i - n_gen]
             stats["synthetic-tables"] = stats.get("synthetic-tables", 0) + 1
@@ -448,7 +476,7 @@ def run(ctx, args):
     stats["findMethod/MatchesClosure lines"] = len(extra)
 
     # ---------------------------------------------------------------- (3) end to end
-    e2e_info = run_e2e(ctx, stats)
+    e2e_info = run_e2e(ctx, stats, pairs, pair_lines, pair_cmp, impls, impl_lines, specs, metas)
 
     # ---------------------------------------------------------------- verdict
     if specval_bad:
@@ -497,5 +525,173 @@ def scan_py(t, v):
     return False
 
 
-def run_e2e(ctx, stats):
-    return {"ran": False, "reason": "not built yet"}
+E2E_PRELUDE_EXTRA = """
+func init() { _ = unsafe.Pointer(nil) }
+"""
+
+
+def e2e_package(pkg, body):
+    imports = ['import "unsafe"'] + ['import %s "%s/%s"' % (i, tg.MOD, i) for i in IMPORTS[pkg]]
+    uses = ["var _ unsafe.Pointer"] + ["var _ %s.T" % i for i in IMPORTS[pkg]]
+    name = "main" if pkg == "r" else pkg
+    return "package %s\n\n%s\n\n%s\n%s\n%s\n" % (name, "\n".join(imports), "\n".join(uses), tg.PRELUDE_COMMON, body)
+
+
+def run_e2e(ctx, stats, pairs, pair_lines, pair_cmp, impls, impl_lines, specs, metas):
+    """One generated three-package program; every case prints one line; the same source is built by llgo (from the
+    working tree) and by the reference toolchain, the two outputs are compared line by line."""
+    from vlib import e2e
+    quick = ctx.tier == "quick"
+    want_pairs = 60 if quick else 400
+    want_impl = 24 if quick else 200
+    by_idx = {pl[0]: pl for pl in pair_lines}
+    chosen = []
+    # corpus first (incl. every known-finding witness), then a spread over the generator's labels
+    seen_labels = {}
+    for idx, (label, pr) in enumerate(pairs):
+        homes = {pr["a"][1], pr["b"][1]}
+        if homes - {"p", "q", "r"}:
+            continue
+        if "unsafe.Pointer" in pr["a"][0] + pr["b"][0] and False:
+            continue
+        is_corpus = label.startswith("corpus:") or label.startswith("local-")
+        key = label
+        if not is_corpus:
+            if seen_labels.get(key, 0) >= (1 if quick else 8) or len(chosen) >= want_pairs:
+                continue
+            if len(pr["a"][0]) > 160 or len(pr["b"][0]) > 160:
+                continue
+        seen_labels[key] = seen_labels.get(key, 0) + 1
+        chosen.append(idx)
+    bodies = {"p": [], "q": [], "r": []}
+    main_calls = []
+    case_meta = []      # (kind, idx)
+    for idx in chosen:
+        label, pr = pairs[idx]
+        (sa, ha, la), (sb, hb, lb) = pr["a"], pr["b"]
+        cmpf = pair_cmp.get(idx, "00")
+        cn = len(case_meta)
+        if la is not None or lb is not None:
+            if cmpf != "11":
+                continue
+            # local types: values escape through `any`; compared with == and as map keys
+            loc = {}
+            for side, (src, home, site) in (("a", pr["a"]), ("b", pr["b"])):
+                stmt = "v%s = *new(%s)" % (side, src)
+                if site is None:
+                    loc.setdefault(0, []).append(stmt)
+                else:
+                    loc.setdefault(site, []).append(stmt)
+            fn = tg.local_function(cn, loc).replace("func fa%d() {" % cn, "func fa%d() (va, vb any) {" % cn, 1) \
+                .replace("func fb%d() {" % cn, "func fb%d(va, vb any) (any, any) {" % cn, 1)
+            # fa returns at the end; fb (site 5) receives and returns
+            fn = fn.replace("\n}\n\nfunc fb%d" % cn, "\n\treturn\n}\n\nfunc fb%d" % cn, 1)
+            fn = fn.rstrip()[:-1] + "\treturn va, vb\n}\n"
+            bodies["r"].append(fn)
+            bodies["r"].append("func case%d() {\n\tva, vb := fa%d()\n\tva, vb = fb%d(va, vb)\n\tm := map[any]int{va: 1}\n\tm[vb] = 2\n\tprintln(%d, \"local\", va == vb, len(m))\n}\n" % (cn, cn, cn, cn))
+            case_meta.append(("pair", idx))
+            main_calls.append("case%d()" % cn)
+            continue
+        # value of type A made in A's home package, asserted to B in B's home package
+        mk = "func Mk%d() any { return *new(%s) }" % (cn, sa)
+        isf = "func Is%d(v any) (bool, bool) {\n\t_, ok := v.(%s)\n\tsw := false\n\tswitch v.(type) {\n\tcase %s:\n\t\tsw = true\n\t}\n\treturn ok, sw\n}" % (cn, sb, sb)
+        mkb = "func MkB%d() any { return *new(%s) }" % (cn, sb)
+        bodies[ha].append(mk)
+        bodies[hb].append(isf)
+        bodies[hb].append(mkb)
+        qa = "" if ha == "r" else ha + "."
+        qb = "" if hb == "r" else hb + "."
+        extra = ""
+        if cmpf == "11":
+            extra = "\tm := map[any]int{%sMk%d(): 1}\n\tm[%sMkB%d()] = 2\n\tprintln(%d, \"eq\", %sMk%d() == %sMkB%d(), len(m))\n" % (qa, cn, qb, cn, cn, qa, cn, qb, cn)
+        bodies["r"].append("func case%d() {\n\tok, sw := %sIs%d(%sMk%d())\n\tprintln(%d, \"assert\", ok, sw)\n%s}\n" % (cn, qb, cn, qa, cn, cn, extra))
+        case_meta.append(("pair", idx))
+        main_calls.append("case%d()" % cn)
+    # implements cases (home r only), with the method call through the interface for two known interfaces
+    n_impl = 0
+    for i, line in enumerate(impl_lines):
+        (op, itf, home), t, v, op_is_iface = metas[i]
+        if home != "r" or n_impl >= want_impl and i >= 16:
+            continue
+        if i >= 16 and (i * 7919) % 11 != 0:
+            continue
+        cn = len(case_meta)
+        call = ""
+        if itf in ("p.I", "I", "q.I") and specs[i]:
+            call = "\tif ok {\n\t\tprintln(%d, \"call\", i.M())\n\t}\n" % cn
+        bodies["r"].append("func case%d() {\n\tvar v any = *new(%s)\n\ti, ok := v.(%s)\n\t_ = i\n\tprintln(%d, \"impl\", ok)\n%s}\n" % (cn, op, itf, cn, call))
+        case_meta.append(("impl", i))
+        main_calls.append("case%d()" % cn)
+        n_impl += 1
+    bodies["r"].append("func main() {\n\t" + "\n\t".join(main_calls) + "\n}\n")
+    files = {"p/p.go": e2e_package("p", "\n".join(bodies["p"])), "q/q.go": e2e_package("q", "\n".join(bodies["q"])),
+             "main.go": e2e_package("r", "\n".join(bodies["r"]))}
+    d = os.path.join(ctx.scratch, "e2e-prog")
+    e2e.write_module(d, files, modname=tg.MOD)
+    info = {"ran": True, "cases": len(case_meta)}
+    ref = e2e.go_run_reference(ctx, d, os.path.join(d, "ref.bin"))
+    if ref.returncode != 0:
+        raise RuntimeError("the generated e2e program is not valid Go (generator bug): " + (ref.stdout + ref.stderr)[-3000:])
+    ctx.log("e2e: reference build done (%d cases)" % len(case_meta))
+    e2e.build_llgo(ctx)
+    ctx.log("e2e: llgo built from the working tree")
+    p = e2e.llgo_build(ctx, d, os.path.join(d, "llgo.bin"))
+    ctx.log("e2e: program compiled by llgo")
+    if p.returncode != 0:
+        ctx.log("llgo failed to build the e2e program:\n" + (p.stdout + p.stderr)[-3000:])
+        ctx.broken.append("e2e: llgo cannot build the generated program")
+        ctx.report_broken("e2e build of the C07 program", (p.stdout + p.stderr)[-3000:])
+        info["ran"] = False
+        return info
+    ro, re_, rrc = e2e.run_prog(os.path.join(d, "ref.bin"))
+    lo, le, lrc = e2e.run_prog(os.path.join(d, "llgo.bin"))
+    rl = [x for x in re_.split("\n") if x]
+    ll = [x for x in le.split("\n") if x]
+    info["reference_lines"] = len(rl)
+    info["llgo_lines"] = len(ll)
+    info["exit"] = {"reference": rrc, "llgo": lrc}
+    refmap, llmap = {}, {}
+    for x in rl:
+        f = x.split(" ", 2)
+        refmap.setdefault(f[0], []).append(x)
+    for x in ll:
+        f = x.split(" ", 2)
+        llmap.setdefault(f[0], []).append(x)
+    diffs = 0
+    for cn, (kind, ref_i) in enumerate(case_meta):
+        a, b = refmap.get(str(cn), ["<missing>"]), llmap.get(str(cn), ["<missing>"])
+        stats["e2e:" + kind] = stats.get("e2e:" + kind, 0) + 1
+        if a == b:
+            continue
+        diffs += 1
+        if kind == "pair":
+            label, pr = pairs[ref_i]
+            why = by_idx[ref_i][4]
+            ident = by_idx[ref_i][1]
+            pre = "diffname:" if ident else "samename:"
+            keys = [pre + w for w in why.split("+")] if why != "-" else []
+            rep = {"a": pr["a"], "b": pr["b"], "reference_go": a, "llgo": b, "generator_label": label}
+            if keys and all(ctx.match_known(k) is not None for k in keys):
+                for k in keys:
+                    ctx.report(k, CLASS_WHAT.get(k, k), rep)
+            else:
+                ctx.report("e2e:pair:%s|%s" % (pr["a"][0][:60], pr["b"][0][:60]), "compiled program disagrees with the reference toolchain on a type-identity case", rep)
+        else:
+            (op, itf, home), t, v, op_is_iface = metas[ref_i]
+            spec = specs[ref_i]
+            ts = sorted(t, key=lambda e: unhexs(e[0]))
+            vs = sorted(v, key=lambda e: unhexs(e[0]))
+            rep = {"operand": op, "interface": itf, "reference_go": a, "llgo": b}
+            unexp_pkgs = set(unhexs(e[0]).decode().rsplit(".", 1)[0] for e in t if b"." in unhexs(e[0]))
+            if spec and scan_py(ts, vs) and not scan_py(t, v):
+                ctx.report("implements:table-order-mismatch", "type assertion to an interface fails in the compiled program", rep)
+            elif len(unexp_pkgs) >= 2:
+                # the interface literal shares its symbol with the one-package interface of the same method names
+                # (p.Kab): the linker keeps one descriptor, the assertion is answered for the wrong method set
+                ctx.report("samename:method-pkg", CLASS_WHAT["samename:method-pkg"], rep)
+            else:
+                ctx.report("e2e:impl:%s|%s" % (op, itf), "compiled program disagrees with the reference toolchain on an interface-satisfaction case", rep)
+    info["differences"] = diffs
+    info["samples"] = [{"e2e_reference": rl[:3], "e2e_llgo": ll[:3]}]
+    ctx.log("e2e: %d cases, %d lines, %d differ from the reference toolchain" % (len(case_meta), len(rl), diffs))
+    return info
